@@ -56,7 +56,7 @@ static void bn_div_imp(bn_t c, bn_t d, const bn_t a, const bn_t b) {
 
 	/* If |a| < |b|, we're done. */
 	if (bn_cmp_abs(a, b) == RLC_LT) {
-		if (bn_sign(a) == bn_sign(b)) {
+		if (bn_sign(a) == bn_sign(b) || bn_is_zero(a)) {
 			if (c != NULL) {
 				bn_zero(c);
 			}
